@@ -7,6 +7,7 @@ require (
 	github.com/aukilabs/hagall v0.0.0
 	github.com/aukilabs/hagall-common v0.2.2
 	github.com/ethereum/go-ethereum v1.14.13
+	github.com/golang-jwt/jwt/v4 v4.5.2
 	github.com/prometheus/client_golang v1.20.5
 	golang.org/x/net v0.38.0
 	google.golang.org/protobuf v1.36.2
@@ -15,7 +16,6 @@ require (
 require (
 	github.com/beorn7/perks v1.0.1 // indirect
 	github.com/cespare/xxhash/v2 v2.3.0 // indirect
-	github.com/golang-jwt/jwt/v4 v4.5.2 // indirect
 	github.com/google/uuid v1.6.0 // indirect
 	github.com/holiman/uint256 v1.3.2 // indirect
 	github.com/munnerz/goautoneg v0.0.0-20191010083416-a7dc8b61c822 // indirect
